@@ -162,7 +162,16 @@ pub fn match_tokens(pat: &[PTok], toks: &[TokenTree], prefix: bool, binds: &mut 
                     return false;
                 }
                 let saved = binds.clone();
-                if match_tokens(inner, &flat(g.stream()), false, binds)
+                // a trailing comma inside a group is insignificant (rustfmt adds it on multi-line calls)
+                let mut inner_toks = flat(g.stream());
+                if matches!(inner_toks.last(), Some(TokenTree::Punct(p)) if p.as_char() == ',') {
+                    inner_toks.pop();
+                }
+                let mut inner_pat: &[PTok] = inner;
+                if matches!(inner_pat.last(), Some(PTok::Tok(TokenTree::Punct(p))) if p.as_char() == ',') {
+                    inner_pat = &inner_pat[..inner_pat.len() - 1];
+                }
+                if match_tokens(inner_pat, &inner_toks, false, binds)
                     && match_tokens(&pat[1..], &toks[1..], prefix, binds)
                 {
                     return true;
@@ -255,9 +264,40 @@ impl VisitMut for StripParens {
     }
 }
 
-pub fn strip_parens(mut e: syn::Expr) -> syn::Expr {
-    StripParens.visit_expr_mut(&mut e);
-    e
+fn drop_trailing_commas(ts: TokenStream) -> TokenStream {
+    let mut v: Vec<TokenTree> = ts.into_iter().collect();
+    if matches!(v.last(), Some(TokenTree::Punct(p)) if p.as_char() == ',') {
+        v.pop();
+    }
+    v.into_iter()
+        .map(|t| match t {
+            TokenTree::Group(g) => {
+                // only inside groups: a top-level trailing comma was handled above
+                let inner = drop_trailing_commas(g.stream());
+                TokenTree::Group(Group::new(g.delimiter(), inner))
+            }
+            o => o,
+        })
+        .collect()
+}
+
+/// normal form used to compare an instantiated pattern with a node: no redundant parentheses, no
+/// trailing commas in argument lists
+pub fn strip_parens(e: syn::Expr) -> syn::Expr {
+    let toks: Vec<TokenTree> = e.to_token_stream().into_iter().collect();
+    let cleaned: TokenStream = toks
+        .into_iter()
+        .map(|t| match t {
+            TokenTree::Group(g) => TokenTree::Group(Group::new(g.delimiter(), drop_trailing_commas(g.stream()))),
+            o => o,
+        })
+        .collect();
+    let mut e2 = match syn::parse2::<syn::Expr>(cleaned) {
+        Ok(x) => x,
+        Err(_) => e,
+    };
+    StripParens.visit_expr_mut(&mut e2);
+    e2
 }
 
 /// Structural match of an expression node: token-level match, then the instantiated pattern must
